@@ -114,11 +114,22 @@ func (c *Ctx) nilNilFuncs() map[*ssa.Function]int {
 // pairMayBeNilNil: can (p, e) both be nil at the end of block b?  Phis are
 // examined edge-wise *jointly* (same predecessor for both).
 func pairMayBeNilNil(p, e ssa.Value, b *ssa.BasicBlock) bool {
+	return pairMayBeNilNilRec(p, e, b, map[[2]ssa.Value]bool{})
+}
+
+func pairMayBeNilNilRec(p, e ssa.Value, b *ssa.BasicBlock, seen map[[2]ssa.Value]bool) bool {
+	// loop-carried phis refer to themselves: a pair already under
+	// examination contributes nothing new
+	k := [2]ssa.Value{p, e}
+	if seen[k] {
+		return false
+	}
+	seen[k] = true
 	pp, pok := p.(*ssa.Phi)
 	ep, eok := e.(*ssa.Phi)
 	if pok && eok && pp.Block() == ep.Block() {
 		for i := range pp.Edges {
-			if pairMayBeNilNil(pp.Edges[i], ep.Edges[i], pp.Block().Preds[i]) {
+			if pairMayBeNilNilRec(pp.Edges[i], ep.Edges[i], pp.Block().Preds[i], seen) {
 				return true
 			}
 		}
@@ -126,7 +137,7 @@ func pairMayBeNilNil(p, e ssa.Value, b *ssa.BasicBlock) bool {
 	}
 	if pok {
 		for i := range pp.Edges {
-			if pairMayBeNilNil(pp.Edges[i], e, pp.Block().Preds[i]) {
+			if pairMayBeNilNilRec(pp.Edges[i], e, pp.Block().Preds[i], seen) {
 				return true
 			}
 		}
@@ -134,7 +145,7 @@ func pairMayBeNilNil(p, e ssa.Value, b *ssa.BasicBlock) bool {
 	}
 	if eok {
 		for i := range ep.Edges {
-			if pairMayBeNilNil(p, ep.Edges[i], ep.Block().Preds[i]) {
+			if pairMayBeNilNilRec(p, ep.Edges[i], ep.Block().Preds[i], seen) {
 				return true
 			}
 		}
